@@ -15,6 +15,7 @@ func init() {
 			"N8 constant indexes are dominated by a length fact; N9 no panic/log.Fatal/os.Exit outside cli.Execute, and library calls with a panicking precondition (netset.IPBlockFromIPAddress on non-IPv4) are dominated by a validation; " +
 			"N12 every construction (composite literal) of a module struct sets the pointer fields that the code dereferences without a nil test, directly or through the by-value structs it contains; " +
 			"N10 the module call graph is acyclic and every for loop is a range or a counted loop. " +
+			"(E2-N12-map) every literal of a set type allocates the maps its methods write through (a write into a nil map panics). " +
 			"NOT decided: panics inside cli-runtime, yaml, apimachinery conversion or np-guard/models on other preconditions; resource exhaustion; termination of library code."
 		rules.NilGuards(p, r)
 		rules.NilAuxiliary(p, r)
